@@ -2,8 +2,7 @@
    segments even for stroke width 1 (polyline/styled.rs:16-41, model: Model/Join.v poly_thick_bounding_box).  With width 1
    every line join collapses to its middle vertex, so the box contains every vertex and therefore every Bresenham pixel
    of every segment line.
-   The first part (extents_w1 ... lj_from_points_w1) is a COPY of branch wip-join Proofs/JoinW1.v (builder "join", e6e8857),
-   kept under other names until that file is on main; then it can be replaced by `From EG Require Import Proofs.JoinW1`. *)
+   The width-1 join lemmas (extents_w1 ... lj_from_points_w1) come from Proofs/JoinW1.v of the join builder. *)
 From EG Require Import Base.Prelude Base.Lemmas Model.Geometry Model.Style Model.Line Model.Thickline Model.Join.
 From EG Require Import Proofs.Geometry Proofs.Line Proofs.Thickline Proofs.Join.
 From Coq Require Import ZifyBool.
@@ -12,60 +11,16 @@ Ltac Zify.zify_post_hook ::= Z.to_euclidean_division_equations.
 Set Default Timeout 60.
 Strategy 1000 [parallels_new parallels_run next_parallel parallels_next bnext_all bprevious_all].
 
-(* ---- copy of wip-join Proofs/JoinW1.v -------------------------------------------------------------- *)
-Lemma tj_extents_w1 l : extents l 1 SONone = Some (l, l).
-Proof.
-  unfold extents. change (sat_u32_to_i32 1) with 1.
-  destruct (parallels_first l 1 ltac:(lia)) as [rest [E R]]. rewrite (R eq_refl) in E. rewrite E.
-  cbn [last_opt last_alternating b_point fst snd].
-  assert (Q : psub (padd (l_start l) (psub (l_end l) (l_start l))) (P 0 0) = l_end l).
-  { unfold psub, padd; cbn [px py]. destruct (l_end l) as [ex ey]; cbn [px py]. f_equal; lia. }
-  rewrite Q. destruct l; reflexivity.
-Qed.
-
-Lemma tj_round_div_raw_multiple den k : den <> 0 -> round_div_raw den (k * den) = k.
-Proof.
-  intros H. replace (k * den) with (0 + k * den) by ring. rewrite round_div_raw_shift by exact H.
-  destruct (Z_lt_ge_dec den 0).
-  - rewrite round_div_raw_neg by lia. cbn [Z.opp]. rewrite Z.div_small by lia. lia.
-  - rewrite round_div_raw_pos by lia. rewrite Z.div_small by lia. lia.
-Qed.
-
-Lemma tj_ip_numerators_common a b c :
-  ip_x_numerator (ip_from_lines (L b c) (L a b)) = px b * ip_den (ip_from_lines (L b c) (L a b)) /\
-  ip_y_numerator (ip_from_lines (L b c) (L a b)) = py b * ip_den (ip_from_lines (L b c) (L a b)).
-Proof.
-  unfold ip_x_numerator, ip_y_numerator, ip_from_lines, le_from_line, det2, determinant, dot_product, rotate_90, line_delta, psub;
-  cbn [ip_le1 ip_le2 ip_den normal_vector origin_distance l_start l_end px py]. split; ring.
-Qed.
-
-Lemma tj_ip_intersection_common a b c : pt_in_i32 b = true ->
-  ip_intersection (ip_from_lines (L b c) (L a b)) = IColinear \/
-  exists o, ip_intersection (ip_from_lines (L b c) (L a b)) = IPoint b o.
-Proof.
-  intros HB. unfold ip_intersection. destruct (ip_den (ip_from_lines (L b c) (L a b)) =? 0) eqn:E; [left; reflexivity|].
-  right. eexists. destruct (tj_ip_numerators_common a b c) as [-> ->].
-  unfold round_div. rewrite !tj_round_div_raw_multiple by lia.
-  unfold pt_in_i32 in HB. apply andb_true_iff in HB as [Hx Hy]. rewrite !sat_as_i32_id by assumption.
-  destruct b; reflexivity.
-Qed.
-
-(* with width 1 every corner of LineJoin::from_points is the middle vertex *)
-Definition tj_join_at (b : point) (j : line_join) : Prop :=
-  first_edge_end j = EC b b /\ second_edge_start j = EC b b.
+(* ---- from Proofs/JoinW1.v (join builder): width-1 joins collapse to their middle vertex -------------------------- *)
+From EG Require Import Proofs.JoinW1 Proofs.JoinDraw.
+Notation tj_extents_w1 := extents_w1.
+Notation tj_join_at := join_at.
 
 Lemma tj_lj_from_points_w1 a b c : pt_in_i32 b = true ->
   exists j, lj_from_points a b c 1 SONone = Some j /\ tj_join_at b j /\ lj_kind j <> JEnd.
 Proof.
-  intros HB. unfold lj_from_points. rewrite !tj_extents_w1. eexists. split; [reflexivity|].
-  unfold lj_from_extents, intersections. cbn [l_start l_end].
-  destruct (tj_ip_intersection_common a b c HB) as [-> | [o ->]]; [split; [split; reflexivity | discriminate]|].
-  assert (LI : (if negb (nearly_colinear_has_error (ip_from_lines (L b c) (L a b))) then b else b) = b) by (destruct (negb _); reflexivity).
-  rewrite LI. destruct o.
-  - destruct (negb (le_check_side _ _ _)); [|split; [split; reflexivity | discriminate]].
-    destruct (_ <=? _); (split; [split; reflexivity | discriminate]).
-  - destruct (negb (le_check_side _ _ _)); [|split; [split; reflexivity | discriminate]].
-    destruct (_ <=? _); (split; [split; reflexivity | discriminate]).
+  intros HB. destruct (lj_from_points_w1 a b c HB) as [j [E J]]. exists j. split; [exact E|]. split; [exact J|].
+  exact (lj_from_points_kind _ _ _ _ _ _ E).
 Qed.
 
 (* ---- own part ----------------------------------------------------------------------------------- *)
